@@ -141,7 +141,7 @@ def dataclass_case(sink, seed, idx, max_fields):  # noqa: C901
         route = 'make_dataclass-swapped'  # the documented compatibility path: ns=<pytree namespace>, namespace=<class body dict>
     ns = rng.choice(['dcns', 'dcns2', GLOBAL])
     nskey = '' if ns is GLOBAL else ns
-    inherit = rng.choice([None, None, 'optree', 'plain'])
+    inherit = rng.choice([None, None, 'optree', 'plain', 'optree-redeclare', 'two-optree'])
     ident = dict(gen='c19', seed=seed, index=idx, fields=[{k: v for k, v in f.items()} for f in fields], flags=flags, extras=extras, route=route, ns=repr(ns), inherit=inherit)
     key = f'dc{idx}'
     POST[key] = 0
@@ -159,12 +159,24 @@ def dataclass_case(sink, seed, idx, max_fields):  # noqa: C901
         bann = {'b0': object, 'b1': object}
         battrs = {'b1': dataclasses.field(default='bd', metadata={'pytree_node': False})}
         Base = type(f'Base{idx}', (), dict(__annotations__=bann, **battrs))
-        if inherit == 'optree':
+        if inherit != 'plain':
             Base = optree.dataclasses.dataclass(Base, namespace=ns, kw_only=True)
         else:
             Base = dataclasses.dataclass(Base, kw_only=True)
         bases = (Base,)
         base_fields = [dict(name='b0', default='none', init=True, pytree_node=None, kw_only=True, how='bare'), dict(name='b1', default='value', init=True, pytree_node=False, kw_only=True, how='plain')]
+        if inherit == 'two-optree':
+            # a second optree dataclass base: dataclasses collects fields in reverse MRO order (BaseB's first)
+            BaseB = type(f'BaseB{idx}', (), dict(__annotations__={'c0': object, 'c1': object}, c0=dataclasses.field(default='cd', metadata={'pytree_node': False}), c1=dataclasses.field(default='ce')))
+            BaseB = optree.dataclasses.dataclass(BaseB, namespace=ns, kw_only=True)
+            bases = (Base, BaseB)
+            base_fields = [dict(name='c0', default='value', init=True, pytree_node=False, kw_only=True, how='plain'), dict(name='c1', default='value', init=True, pytree_node=None, kw_only=True, how='bare')] + base_fields
+        if inherit == 'optree-redeclare':
+            # the subclass declares an inherited field again with the other role (it keeps its position in fields(), the new definition counts)
+            if rng.random() < 0.5:
+                fields = fields + [dict(name='b1', default='value', init=True, pytree_node=True, kw_only=True, how=rng.choice(['optree', 'plain']))]
+            else:
+                fields = fields + [dict(name='b0', default='value', init=True, pytree_node=False, kw_only=True, how=rng.choice(['optree', 'plain']))]
     ann, attrs, field_err = build_namespace(fields, True, extras)
     expect_reject = any(effective_node(f) and not f['init'] for f in fields)
     if field_err is not None:
@@ -212,9 +224,11 @@ def dataclass_case(sink, seed, idx, max_fields):  # noqa: C901
         sink.count('illegal-layouts')
         return
     try:
-        all_fields = base_fields + fields
-        if extras['kw_sentinel']:
-            all_fields = all_fields + [dict(name='kz', default='value', init=True, pytree_node=None, kw_only=True, how='bare')]
+        defs = {}
+        for f_ in base_fields + fields + ([dict(name='kz', default='value', init=True, pytree_node=None, kw_only=True, how='bare')] if extras['kw_sentinel'] else []):
+            defs[f_['name']] = f_  # the last definition of a name counts
+        # declaration order as the standard library sees it (on the plain twin): reverse MRO for bases, a redeclared field keeps its place
+        all_fields = [defs[f_.name] for f_ in dataclasses.fields(twin) if f_.name in defs]
         # ---- instances
         def value_for(f, r):
             if effective_node(f):
@@ -312,12 +326,13 @@ def dataclass_case(sink, seed, idx, max_fields):  # noqa: C901
                 continue
             sink.check(outcome(inst) == outcome(tinst), f'twin/behaviour/{name}', f'{name} behaves like the twin', ident, lambda: (outcome(inst), outcome(tinst)))
         sink.check(hasattr(cls, '__slots__') == hasattr(twin, '__slots__') or not flags['slots'], 'twin/slots', 'slots like the twin', ident)
-        sink.cell('route', route, 'inherit' if inherit else 'flat')
+        sink.cell('route', route, inherit or 'flat')
+        sink.count(f'inheritance:{inherit or "none"}')
         sink.cell('flags', *(k for k, v in flags.items() if v))
         sink.count('dataclasses')
         sink.case(harness.fp('dc', repr(fields), repr(flags), route, inherit), len(all_fields) >= 2, ident if idx % 400 == 0 else None)
     finally:
-        for c_ in ([cls] if made else []) + (list(bases) if inherit == 'optree' else []):
+        for c_ in ([cls] if made else []) + (list(bases) if inherit and inherit != 'plain' else []):
             try:
                 optree.unregister_pytree_node(c_, namespace=ns)
             except Exception:  # noqa: BLE001
@@ -436,6 +451,8 @@ def run_shard(sink, tier, seed, shard):
 
 def finalize(sink, tier, seed):
     sink.require('dataclasses', 500)
+    for k in ('optree', 'plain', 'optree-redeclare', 'two-optree'):
+        sink.require(f'inheritance:{k}', 30)
     sink.require('dataclass-observations', 500)
     sink.require('rejected:decorator')
     sink.require('rejected:field')
